@@ -24,6 +24,11 @@ func kernelGenerateConverters(e2e string) layera.Kernel {
 		Stub: []string{"github.com/jmattheis/goverter/comments.ParseDocs", "github.com/jmattheis/goverter/config.Parse", "github.com/jmattheis/goverter/generator.Generate"}}
 }
 
+func kernelConverterLines(e2e string) layera.Kernel {
+	return layera.Kernel{Name: "K8.converterlines", Pkg: "config", Harness: "VerifHarness_C15_ConverterLines", Unwind: 64, E2E: e2e,
+		Stub: []string{"(*github.com/jmattheis/goverter/pkgload.PackageLoader).GetMatching"}}
+}
+
 func runC15(opt *Options) int {
 	ints := map[string]int{"VerifC15PackageMax": 6, "VerifC15FileMax": 7, "VerifC15NameMax": 8}
 	if opt.Thorough() {
@@ -41,9 +46,10 @@ func runC15(opt *Options) int {
 			{Name: "K8.resolvepackage", Pkg: "config", Harness: "VerifHarness_C15_ResolvePackage", Unwind: 64, E2E: "c15"},
 			{Name: "K8.resolvetarget", Pkg: "config", Harness: "VerifHarness_C15_ResolveTarget", Unwind: 64},
 			{Name: "K7.filescan", Pkg: "comments", Harness: "VerifHarness_C19_ParseDocsFiles", Unwind: 64, E2E: "c15"},
+			kernelConverterLines("c15"),
 			kernelGenerateConverters("c15"),
 		},
-		Funcs:     []string{"generator.(*fileManager).Get", "generator.getOutputDir", "config.(*ConverterConfig).PackageID", "config.parseConverterLine (output:package, output:file arms)", "parse.File", "parse.String", "config.defaultOutputFile", "config.getPackages", "config.registerConverterLines", "config.registerMethodLines", "config.resolveOutputPackage", "config.resolvePackage", "pkgload.New", "pkgload.(*PackageLoader).load/GetUncheckedPkg", "goverter.GenerateConverters", "goverter.generateConvertersRaw", "goverter.writeFiles"},
+		Funcs:     []string{"generator.(*fileManager).Get", "generator.getOutputDir", "config.(*ConverterConfig).PackageID", "config.parseConverterLine (output:package, output:file arms)", "parse.File", "parse.String", "config.defaultOutputFile", "config.getPackages", "config.parseConverter", "config.parseConverterLines", "config.parseConverterLine (output:package, output:file, arg:context:regex, extend arms in sequence)", "config.registerConverterLines", "config.registerMethodLines", "config.resolveOutputPackage", "config.resolvePackage", "pkgload.New", "pkgload.(*PackageLoader).load/GetUncheckedPkg", "goverter.GenerateConverters", "goverter.generateConvertersRaw", "goverter.writeFiles"},
 		E2EAlways: "c15",
 		Bounds:    "two converters with arbitrary (atom) file names, output files, package paths and names; output:package / output:file values of <= 6/7 (thorough 9/10) arbitrary non-blank ASCII bytes; declaring file names of <= 8 (thorough 11) arbitrary bytes; <= 2 generated files",
 		Assume:    k8Assume,
@@ -79,10 +85,13 @@ func runC17(opt *Options) int {
 			{Name: "K8.generate", Pkg: "generator", Harness: "VerifHarness_C17_Generate", Unwind: 16, E2E: "c17", Stub: []string{"github.com/jmattheis/goverter/generator.generateConverter"}},
 			{Name: "K8.run", Pkg: "cli", Harness: "VerifHarness_C17_Run", Unwind: 16, E2E: "c17", Stub: []string{"github.com/jmattheis/goverter/cli.Parse", "github.com/jmattheis/goverter.GenerateConverters"}},
 			{Name: "K8.setup", Pkg: "generator", Harness: "VerifHarness_C17_Setup", Unwind: 16},
+			{Name: "K8.validateevery", Pkg: "generator", Harness: "VerifHarness_C17_ValidateEvery", Unwind: 24},
+			{Name: "K8.writefailure", Pkg: ".", Harness: "VerifHarness_C17_WriteFailure", Unwind: 16, E2E: "c17",
+				Stub: []string{"github.com/jmattheis/goverter/comments.ParseDocs", "github.com/jmattheis/goverter/config.Parse", "github.com/jmattheis/goverter/generator.Generate"}},
 			{Name: "K7.nomarker", Pkg: "comments", Harness: "VerifHarness_C19_NoMarker", Unwind: 64},
 			{Name: "K8.extendfault", Pkg: "config", Harness: "VerifHarness_C17_ExtendFault", Unwind: 24, E2E: "c17", Stub: []string{"(*github.com/jmattheis/goverter/pkgload.PackageLoader).GetMatching"}},
 		},
-		Funcs:     []string{"goverter.GenerateConverters", "goverter.generateConvertersRaw", "goverter.writeFiles", "generator.Generate", "generator.(*fileManager).Get", "generator.(*fileManager).renderFiles", "cli.Run", "config.parseConverterLine (extend arm)"},
+		Funcs:     []string{"goverter.GenerateConverters", "goverter.generateConvertersRaw", "goverter.writeFiles", "generator.Generate", "generator.(*fileManager).Get", "generator.(*fileManager).renderFiles", "cli.Run", "config.parseConverterLine (extend arm)", "generator.validateMethods", "generator.setupGenerator"},
 		E2EAlways: "c17",
 		Bounds:    "every failing stage (doc scan, config, generation), <= 3 converters with the failure at any position, <= 2 output files, every parse outcome of the command line (error, help, gen, version)",
 		Assume:    k8Assume,
